@@ -186,6 +186,19 @@ pub fn gen_tower(prop: Prop, rng: &mut Rng, thorough: bool) -> History {
         cfg.max_clip += 1;
         cfg.max_layer += 1;
     }
+    if matches!(prop, Prop::C02 | Prop::C03 | Prop::C06) && rng.chance(1, 4) {
+        // a quarter of the histories take place inside a layer whose origin is not the surface's
+        // (pushed under a clip rectangle at an offset): destination indexing relative to the
+        // layer, clip masks relative to the surface
+        let (w, h) = em.dims(0);
+        if w >= 3 && h >= 3 {
+            let x1 = rng.range(1, w / 2);
+            let y1 = rng.range(1, h / 2);
+            em.push(0, Op::PushClipRect([x1, y1, rng.range(x1 + 1, w + 1), rng.range(y1 + 1, h + 1)]));
+            let plain = rng.chance(1, 2);
+            em.push(0, Op::PushLayer { opacity: F(if rng.chance(1, 2) { 1. } else { rng.unit() }), blend: if plain { BLEND_SRC_OVER } else { gen_blend(rng, cfg.layer_blend) }, plain });
+        }
+    }
     if prop == Prop::C05 {
         // most C05 histories start with a stack already in place: rect/path in either order
         let (w, h) = em.dims(0);
